@@ -30,7 +30,7 @@ T_COMB = 'constraints:comb'
 CONFIG = {
     # full_len: all label vectors up to this length; sample_len/frac: a seed-determined subset of the next length
     'replay': dict(full_len=5, sample_len=None, sample_frac=0.0, n_seeds=1, n_psets=1),
-    'quick': dict(full_len=6, sample_len=7, sample_frac=0.125, n_seeds=2, n_psets=2),
+    'quick': dict(full_len=6, sample_len=7, sample_frac=0.03125, n_seeds=2, n_psets=2),
     'thorough': dict(full_len=7, sample_len=None, sample_frac=0.0, n_seeds=4, n_psets=4),
 }
 PARAMS = (1, 2, 3)
@@ -100,7 +100,7 @@ def unk(y):
 def bad(tag, fn, y, observed, **inp):
   d = dict(call=fn, y=[int(v) for v in y])
   d.update(inp)
-  return dict(tag=tag, observed=observed, input=d, signature='%s %s' % (fn.split('(')[0], unk(y)))
+  return dict(tag=tag, observed=observed, input=d, signature='%s %s' % (fn.split('(')[1].split('.')[-1] if fn.startswith('Constraints') else fn.split('(')[0], unk(y)))
 
 
 def as_index_list(a, name):
@@ -454,9 +454,8 @@ def replay_clause(cid, fail, seed):
   target = cid.split('[')[0].split('/')[0]
   known_tags = (T_PAIRS, T_PAIRS_, T_WRAP, T_CHUNKS, T_TRIP, T_COMB)
   limiter = single_thread()
-  for only in ((target,) if target in known_tags else ()), None:
-    if only == ():
-      continue
+  passes = [(target,), None] if target in known_tags else [None]
+  for only in passes:
     for desc, tags, thunk in cases('replay', seed):
       if only is not None and not (set(tags) & set(only)):
         continue
